@@ -12,6 +12,8 @@
 From MV Require Import C12.Modes C12.Proofs_Modes C12.Proofs_DES C12.Proofs_AES C12.Proofs_AES_Key C12.Proofs_API.
 From MV Require Import C12.Proofs_SP80038A C12.KAT_AES C12.KAT_DES C12.KAT_Modes.
 From MV Require Import C12.Impl_DES C12.Impl_AES C12.Proofs_Impl_DES C12.Proofs_Impl_AES C12.Proofs_Impl_AES2 C12.Proofs_Impl_AES3 C12.Proofs_Keys C12.Impl_Ctx.
+From Coq Require Import ZArith String.
+From MV Require Import Lib.Leaf gen.Params_C12 C12.Proofs_SetKey.
 Local Open Scope N_scope.
 
 (* ===== 1. the mode loops, generic over ANY block primitive E with inverse D on bs-byte blocks ===== *)
@@ -478,3 +480,126 @@ Print Assumptions tdes_key_schedules_impl_independent.
 Theorem tdes_set_key_text_is_three_schedule_calls : tdes_set_key_foreign = [] /\ tdes_set_key_targets = [1; 2; 3]%nat.
 Proof. exact tdes_set_key_text_ok. Qed.
 Print Assumptions tdes_set_key_text_is_three_schedule_calls.
+
+(* ===== parameter validation of the set_key entry points (C12/Proofs_SetKey.v) =====
+   "... and other invalid parameters are rejected": the key size of muggle_aes_set_key is a C int, and the model has it as
+   an integer (aes_set_key_int, bits : Z); the theorems below quantify over EVERY integer - negative, zero, the Rijndael
+   sizes 160 / 224 that FIPS-197 did not adopt, every other multiple of 8 or 32, neighbours of the valid sizes, large values.
+   Non-vacuity: aes_set_key_sizes_example, set_key_text_examples (C12/Proofs_SetKey.v). *)
+Local Open Scope Z_scope.
+
+(* the int entry point is the entry point of the API theorems above at Z.to_N bits (no integer is confused with a size) *)
+Theorem aes_set_key_int_is_aes_set_key : forall pk pc o m (bits : Z) key,
+  aes_set_key_int pk pc o m bits key = aes_set_key pk pc o m (Z.to_N bits) key.
+Proof. exact aes_set_key_int_eq. Qed.
+Print Assumptions aes_set_key_int_is_aes_set_key.
+
+(* set_key accepts EXACTLY the valid sizes, for every bit count in Z (and exactly valid op / mode / non-NULL pointers) *)
+Theorem aes_set_key_accepts_exactly_128_192_256 : forall pk pc o m (bits : Z) key,
+  fst (aes_set_key_int pk pc o m bits key) = OK <->
+  (op_valid o = true /\ mode_valid m = true /\ pk = true /\ pc = true /\ (bits = 128 \/ bits = 192 \/ bits = 256)).
+Proof. exact aes_set_key_accepts_exactly. Qed.
+Print Assumptions aes_set_key_accepts_exactly_128_192_256.
+
+(* the error code: the argument checks in the order of the C code, the key size last *)
+Theorem aes_set_key_error_code_order : forall pk pc o m (bits : Z) key,
+  fst (aes_set_key_int pk pc o m bits key) =
+  first_err [(op_valid o, E_INVALID); (mode_valid m, E_INVALID); (pk, E_NULL); (pc, E_NULL); (aes_bits_valid bits, E_KEYSIZE)].
+Proof. exact aes_set_key_error_code. Qed.
+Print Assumptions aes_set_key_error_code_order.
+
+Theorem aes_set_key_other_sizes_rejected : forall o m (bits : Z) key,
+  op_valid o = true -> mode_valid m = true -> bits <> 128 -> bits <> 192 -> bits <> 256 ->
+  aes_set_key_int true true o m bits key = (E_KEYSIZE, None).
+Proof. exact aes_set_key_rejects_other_sizes. Qed.
+Print Assumptions aes_set_key_other_sizes_rejected.
+
+(* a refused set_key yields no context (the driver observes: key-schedule area untouched, later calls have nothing to run
+   on); an accepted one the stored op / mode and the schedule of the announced size *)
+Theorem aes_set_key_context_iff_accepted : forall pk pc o m (bits : Z) key,
+  match aes_set_key_int pk pc o m bits key with
+  | (OK, Some c) => a_op c = o /\ a_mode c = m /\ aes_round_keys (Z.to_N bits) key = Some (a_rk c)
+  | (OK, None) => False
+  | (_, Some _) => False
+  | (_, None) => True
+  end.
+Proof. exact aes_set_key_context. Qed.
+Print Assumptions aes_set_key_context_iff_accepted.
+
+Theorem des_tdes_set_key_accept_exactly : forall pk p2 p3 pc o m key k2 k3,
+  (fst (des_set_key pk pc o m key) = OK <-> (op_valid o = true /\ mode_valid m = true /\ pk = true /\ pc = true)) /\
+  (fst (tdes_set_key pk p2 p3 pc o m key k2 k3) = OK <->
+   (op_valid o = true /\ mode_valid m = true /\ pk = true /\ p2 = true /\ p3 = true /\ pc = true)).
+Proof. exact (fun pk p2 p3 pc o m key k2 k3 => conj (des_set_key_accepts_exactly pk pc o m key)
+                                                    (tdes_set_key_accepts_exactly pk p2 p3 pc o m key k2 k3)). Qed.
+Print Assumptions des_tdes_set_key_accept_exactly.
+
+Theorem des_tdes_set_key_context_iff_accepted : forall pk p2 p3 pc o m key k2 k3,
+  match des_set_key pk pc o m key with
+  | (OK, Some c) => d_op c = o /\ d_mode c = m /\ d_ks c = des_gen_subkeys (des_schedule_op o m) key
+  | (OK, None) => False
+  | (_, Some _) => False
+  | (_, None) => True
+  end /\
+  match tdes_set_key pk p2 p3 pc o m key k2 k3 with
+  | (OK, Some c) => t_op c = o /\ t_mode c = m
+  | (OK, None) => False
+  | (_, Some _) => False
+  | (_, None) => True
+  end.
+Proof. exact des_tdes_set_key_context. Qed.
+Print Assumptions des_tdes_set_key_context_iff_accepted.
+
+(* ---- the C TEXT of the three functions (gen/Params_C12.v: re-translated from the working tree on every run by
+   lib/props/c12_slice.py) equals reference functions in the vocabulary of the model, on every integer argument; the
+   key-schedule calls receive the caller's key and the schedule area of the caller's context; the enumeration values are
+   usable as codes.  Shape-independent proofs: a harmless rewrite keeps them, a changed accepted set breaks them. ---- *)
+Theorem set_key_text_matches_reference :
+  (forall f_rounds nn_key nn_sk bits ores,
+     lenient3 (gen_muggle_openssl_aes_set_key f_rounds nn_key nn_sk bits ores) =
+     lenient3 (ref_openssl_aes_set_key f_rounds nn_key nn_sk bits ores)) /\
+  (forall f_mode f_op nn_key nn_ctx op mode bits ores,
+     lenient4 (gen_muggle_aes_set_key f_mode f_op nn_key nn_ctx op mode bits ores) =
+     lenient4 (ref_aes_set_key f_mode f_op nn_key nn_ctx op mode bits ores)) /\
+  (forall f_mode f_op nn_key nn_ctx op mode ores,
+     lenient4 (gen_muggle_des_set_key f_mode f_op nn_key nn_ctx op mode ores) =
+     lenient4 (ref_des_set_key f_mode f_op nn_key nn_ctx op mode ores)) /\
+  (gen_muggle_openssl_aes_set_key_ptrargs = ["openssl_key_expansion($1,$3->rd_key)"%string] /\
+   gen_muggle_aes_set_key_ptrargs = ["muggle_openssl_aes_set_key($3,$5->sk)"%string] /\
+   gen_muggle_des_set_key_ptrargs = ["muggle_des_set_key_inner($3,$4->sk)"%string]) /\
+  enums_ok = true.
+Proof. exact (conj gen_openssl_aes_set_key_eq (conj gen_aes_set_key_eq (conj gen_des_set_key_eq (conj set_key_ptrargs_ok enums_are_ok)))). Qed.
+Print Assumptions set_key_text_matches_reference.
+
+(* the text of muggle_openssl_aes_set_key returns 0 for EXACTLY 128 / 192 / 256 over all integers, the key-size error code
+   and no key-expansion call otherwise; on success one expansion call with (Nr, Nk) of the specification's table *)
+Theorem openssl_aes_set_key_text_accepts_exactly_128_192_256 : forall f_rounds nn_key nn_sk bits ores,
+  let r := gen_muggle_openssl_aes_set_key f_rounds nn_key nn_sk bits ores in
+  (ret3 r = 0 <-> (bits = 128 \/ bits = 192 \/ bits = 256)) /\
+  (ret3 r <> 0 -> ret3 r = err_code E_KEYSIZE /\ fid (slot3 r) = 0) /\
+  (ret3 r = 0 -> fid (slot3 r) = 1 /\
+     aes_params (Z.to_N bits) = Some (Z.to_nat (arg2 (slot3 r)), Z.to_nat (arg1 (slot3 r)))).
+Proof. exact openssl_aes_set_key_text_accepts_exactly. Qed.
+Print Assumptions openssl_aes_set_key_text_accepts_exactly_128_192_256.
+
+(* muggle_aes_set_key composed with muggle_openssl_aes_set_key, both as in the C text: the return value is the model's error
+   code for every int op, mode, bits and NULL / non-NULL key, ctx; bits reaches the key-size chain unchanged *)
+Theorem aes_set_key_text_returns_model_error_code : forall f_mode f_op f_rounds nn_key nn_ctx op mode bits key,
+  let outer ores := gen_muggle_aes_set_key f_mode f_op nn_key nn_ctx op mode bits ores in
+  (forall ores, fid (slot4 (outer ores)) = 0 \/ (fid (slot4 (outer ores)) = 1 /\ arg1 (slot4 (outer ores)) = bits)) /\
+  (forall ores ores', fid (slot4 (outer ores)) = fid (slot4 (outer ores'))) /\
+  forall nn_sk ores_inner,
+  let inner := gen_muggle_openssl_aes_set_key f_rounds nn_key nn_sk bits ores_inner in
+  ret4 (outer (ret3 inner)) =
+  err_code (fst (aes_set_key_int (negb (nn_key =? 0)) (negb (nn_ctx =? 0)) (int_op op) (int_mode mode) bits key)).
+Proof. exact aes_set_key_text_equals_model. Qed.
+Print Assumptions aes_set_key_text_returns_model_error_code.
+
+Theorem des_set_key_text_returns_model_error_code : forall f_mode f_op nn_key nn_ctx op mode ores key,
+  let r := gen_muggle_des_set_key f_mode f_op nn_key nn_ctx op mode ores in
+  let m := des_set_key (negb (nn_key =? 0)) (negb (nn_ctx =? 0)) (int_op op) (int_mode mode) key in
+  (fst m <> OK -> ret4 r = err_code (fst m) /\ fid (slot4 r) = 0) /\
+  (fst m = OK -> ret4 r = ores /\ fid (slot4 r) = 1 /\
+     int_op (arg1 (slot4 r)) = des_schedule_op (int_op op) (int_mode mode)).
+Proof. exact des_set_key_text_equals_model. Qed.
+Print Assumptions des_set_key_text_returns_model_error_code.
